@@ -546,4 +546,44 @@ def cvDataText (toks : List (List Char)) : List Char := toks.flatMap (· ++ ['\n
 def cvReadText (tok1 tok2 : Nat) (nda : Int) (parse : List Char → Int) (t : List Char) : Option (Nat × Nat × List Int × Bool) :=
   cvReadInts tok1 tok2 nda (endsWS t) ((splitWS t []).map parse)
 
+/-! ## Code V preamble: comment lines, title line, header line -/
+
+/-- `txt.lstrip(strip).startswith(marker)` -/
+def isBangG (strip : List Char) (marker : Char) (t : List Char) : Bool :=
+  match t.dropWhile (fun c => strip.contains c) with
+  | c :: _ => c == marker
+  | [] => false
+
+/-- `txt[txt.find('\n')+1:]`; `none` when there is no newline (the reader raises) -/
+def dropLine : List Char → Option (List Char)
+  | [] => none
+  | c :: r => if c = '\n' then some r else dropLine r
+
+/-- `txt[:txt.find('\n')]` -/
+def takeLine : List Char → List Char
+  | [] => []
+  | c :: r => if c = '\n' then [] else c :: takeLine r
+
+/-- the reader's comment loop: while the text (after leading `strip` characters) starts with the marker, skip one line -/
+def skipCommentsG (strip : List Char) (marker : Char) : Nat → List Char → Option (List Char)
+  | 0, t => some t
+  | f + 1, t =>
+    if isBangG strip marker t then
+      match dropLine t with
+      | none => none
+      | some r => skipCommentsG strip marker f r
+    else some t
+
+/-- the preamble of the Code V reader: skip comment lines, then title line, then header line; `none` = raises -/
+def cvPreambleG (strip : List Char) (marker : Char) (t : List Char) : Option (List Char × List Char × List Char) :=
+  match skipCommentsG strip marker (t.length + 1) t with
+  | none => none
+  | some t1 =>
+    match dropLine t1 with
+    | none => none
+    | some t2 => some (takeLine t1, takeLine t2, (dropLine t2).getD [])
+
+def cvStripChars : List Char := [' ', '\t']
+def cvCommentMarker : Char := '!'
+def cvPreamble (t : List Char) := cvPreambleG cvStripChars cvCommentMarker t
 end Model.C14
